@@ -18,6 +18,11 @@ import (
 
 func c10LibRaw(t c10Txn, withAccrual, viaParser bool) ([]c10Gen, string, error) {
 	reg := registry.New()
+	for _, a := range t.ChildFirst {
+		if _, err := reg.Accounts().Get(a + ":Unterkonto"); err != nil {
+			return nil, "", err
+		}
+	}
 	var ds []model.Directive
 	var text string
 	if viaParser {
